@@ -152,8 +152,37 @@ def compare(only=None):
     return bad, shown
 
 
+FRAGMENTS = {           # page -> pieces of declaration text that must be shown (derived-type prototypes are links: the text around the link must survive)
+    "proc/show.html": ["type(holder)", "character(len=*)", "intent(in)", "character(len=9)"],
+    "proc/twice.html": ["integer", "intent(in)", "optional", "logical", "intent(inout)"],
+    "module/decl.html": ["character(len=*)", "parameter", "character(len=7)", "dimension(2)", "integer(kind=merge(4,8,pa4+pb4))", "logical"],
+    "type/holder.html": ["character(len=3)", "integer"],
+}
+
+
+def shown_fragments():
+    base, st = render(True)
+    if base is None:
+        return [f"the run failed: {st}"]
+    bad = []
+    for page, frags in FRAGMENTS.items():
+        if page not in base:
+            bad.append(f"{page} was not written")
+            continue
+        text = base[page][1].replace(" ", "")
+        for f in frags:
+            if f.replace(" ", "") not in text:
+                bad.append(f"{page}: the declaration text {f!r} is not shown")
+    return bad
+
+
 def search(groups=None):
     groups = groups or [None]
+    if groups == [None] or any(g is not None and len(g) > 3 for g in groups):
+        bad = shown_fragments()
+        if bad:
+            return {"confirmed": True, "input": {"source": source(True)}, "actual": bad[:5], "expected": "type, kind/len, attributes and intent are shown as declared",
+                    "how": "real end-to-end run; text of the written pages"}
     for only in groups:
         bad, shown = compare(only)
         if not bad and shown < 10 and only is None:
